@@ -22,7 +22,7 @@ def run(cmd, **kw):
 
 def main():
     seed_dir, name, prop, checks = sys.argv[1], sys.argv[2], sys.argv[3], sys.argv[4:]
-    tmp = tempfile.mkdtemp(prefix="gwf-seed-", dir="/dev/shm")
+    tmp = tempfile.mkdtemp(prefix=f"gwf-seed-x-p{os.getpid()}-", dir="/dev/shm")
     meta = dict(name=name, property=prop, source=seed_dir)
     try:
         clean = os.path.join(tmp, "clean")
